@@ -57,6 +57,46 @@ def wlev(a, b, ins, dele, sub):
     return prev[-1]
 
 
+def homopolymer_wlev(n, m, same, ins, dele, sub):
+    """closed form for 'A'*n -> ('A' if same else 'C')*m (checked against the DP in the conformance of this harness, see _selfcheck)"""
+    if same:
+        return (m - n) * ins if m >= n else (n - m) * dele
+    k = min(n, m)
+    return k * min(sub, ins + dele) + ((m - n) * ins if m >= n else (n - m) * dele)
+
+
+PROBE_SHAPES = [(300, 400, False), (0, 200, False), (200, 0, False), (0, 300, False), (260, 0, False), (400, 150, True), (150, 400, True),
+                (255, 256, False), (100, 100, False), (90, 0, False)]
+PROBE_WEIGHTS = [(3, 2, 1), (2, 3, 1), (1, 1, 3), (3, 3, 3), (1, 3, 2), (2, 2, 1)]
+
+
+def _selfcheck():
+    for n, m, same in [(3, 5, False), (5, 3, False), (4, 2, True), (0, 3, False), (2, 2, False)]:
+        for w in PROBE_WEIGHTS + [(1, 1, 1)]:
+            assert homopolymer_wlev(n, m, same, *w) == wlev("A" * n, ("A" if same else "C") * m, *w), (n, m, same, w)
+
+
+_selfcheck()
+
+
+def long_probe(metric, w, unit):
+    """Concrete probe on the REAL rapidfuzz: strings of 90-400 letters, length differences up to 300, the replayed weights and (for the
+    weighted class) six fixed weight triples incl. insertion/deletion dearer than substitution - no value may wrap around or saturate."""
+    for wt in ([w] if unit else [w] + PROBE_WEIGHTS):
+        m = metric.Levenshtein() if unit else metric.WeightedLevenshtein(*wt)
+        for n1, n2, same in PROBE_SHAPES:
+            a, b = "A" * n1, ("A" if same else "C") * n2
+            got = m.calc_cdist_matrix([a], [b, a])
+            want = [homopolymer_wlev(n1, n2, same, *wt), 0]
+            if [int(v) for v in got.tolist()[0]] != want or [float(v) for v in got.tolist()[0]] != [float(x) for x in want]:
+                return False, (f"[long-string probe on the real library] weights(ins,del,sub)={wt}: cdist(['A'*{n1}], [{'A' if same else 'C'!r}*{n2}, 'A'*{n1}]) "
+                               f"= {got.tolist()}, expected {[want]}")
+            vec = m.calc_pdist_vector([a, b])
+            if [int(v) for v in vec.tolist()] != want[:1]:
+                return False, f"[long-string probe on the real library] weights={wt}: pdist of 'A'*{n1} and {'A' if same else 'C'!r}*{n2} = {vec.tolist()}, expected {want[:1]}"
+    return True, ""
+
+
 def _realize(x):
     from crosshair.core import deep_realize
     try:
@@ -106,10 +146,7 @@ def _replay_w(ashape, bshape, unit):
         if got.tolist() != want:
             return False, f"weights(ins,del,sub)={w} cdist({A!r}, {B!r}) = {got.tolist()} expected {want}"
         # real-library probe for the argument-record part of the claim (no narrowing dtype / cutoff): long strings must not wrap around
-        long_a, long_b = "A" * 300, "C" * 400
-        lg = m.calc_cdist_matrix([long_a], [long_b, long_a])
-        lw = [[wlev(long_a, long_b, *w), 0]]
-        return [[int(v) for v in row] for row in lg.tolist()] == lw, f"weights={w}: distance between 300 x 'A' and 400 x 'C' reported as {lg.tolist()}, expected {lw}"
+        return long_probe(metric, w, unit)
     return replay
 
 
